@@ -21,17 +21,20 @@ with warnings.catch_warnings():
 # ----------------------------------------------------------------------------------------------
 # independent provenance: own substitution, character by character
 
-def sub_prov(pat, tpl, s):
+def sub_prov(pat, tpl, s, keep=None):
     """(out, prov): prov[j] = index in s of the character that out[j] IS (carried over unchanged),
     or None for inserted text.  Carried over: outside every match, or inside a participating group of a
     template that references groups 1..k in order, the group starting at or after everything of the match
-    already accounted for."""
+    already accounted for.  `keep`: the indices of the matches that are rewritten (None = all); a match
+    that is not rewritten (blocked by a mask) is plain text."""
     rx = re.compile(pat)
     items = re._parser.parse_template(tpl, rx)      # [lit, group, lit, group, ..., lit]
     refs = list(items[1::2])
     inorder = refs == list(range(1, len(refs) + 1))
     out, prov, pos = [], [], 0
-    for m in rx.finditer(s):
+    for mi, m in enumerate(rx.finditer(s)):
+        if keep is not None and mi not in keep:
+            continue
         for i in range(pos, m.start()):
             out.append(s[i])
             prov.append(i)
@@ -59,7 +62,7 @@ def sub_prov(pat, tpl, s):
         out.append(s[i])
         prov.append(i)
     out = "".join(out)
-    assert out == rx.sub(tpl, s), (pat, tpl, s, out)
+    assert keep is not None or out == rx.sub(tpl, s), (pat, tpl, s, out)
     return out, prov
 
 
@@ -95,6 +98,135 @@ def ref_prov(case, nodes, s, org):
 
 pieces = G.pieces
 
+MAX_DIRTY = 8
+
+
+def masked_prov(case, s, run):
+    """Provenance of a run of a program WITH masks, from the yielded steps: at every rule step the set of
+    rewritten matches is every match free of masked material plus some of the others — the subsets whose
+    substitution gives the step's output; a character is claimed only where all such subsets agree.
+    Returns (org, blocked_steps) or None when the steps do not form a chain / no subset fits (reported by
+    C13's oracle) / too many masked matches."""
+    org, cur, mask, nblocked = list(range(len(s))), s, [0] * (len(s) + 2), 0
+    for st in run["steps"]:
+        if st["kind"] == "rule":
+            si, so = uncps(st["inp"]), uncps(st["out"])
+            if si != cur:
+                return None
+            ru = case["rules"][st["id"]]
+            ms = list(re.finditer(ru["pat"], si))
+            clean = [i for i, m in enumerate(ms) if not any(mask[m.start() + 1:m.end() + 1])]
+            dirty = [i for i in range(len(ms)) if i not in clean]
+            if len(dirty) > MAX_DIRTY:
+                return None
+            cands = []
+            for bits in range(1 << len(dirty)):
+                keep = set(clean) | {d for j, d in enumerate(dirty) if bits >> j & 1}
+                o2, pv = sub_prov(ru["pat"], ru["tpl"], si, keep)
+                if o2 == so:
+                    cands.append((pv, len(keep) < len(ms)))
+            if not cands:
+                return None
+            if all(c[1] for c in cands):
+                nblocked += 1
+            pv = [c0 if all(c[0][j] == c0 for c in cands) else None for j, c0 in enumerate(cands[0][0])]
+            org = [None if p is None else org[p] for p in pv]
+            cur = so
+        elif st["kind"] == "mask" and uncps(st["inp"]) != cur:
+            return None
+        if "mask" in st:
+            mask = st["mask"]
+    if cur != uncps(run["string"]):
+        return None
+    return org, nblocked
+
+
+# programs with masks before rules for the bounded-exhaustive stream: (mask patterns, rules); blocked matches
+# before / after rewritten ones, length-changing rules, masks on deleted / moved / copied material
+MASKED_SPECIMENS = [
+    (["a"], [("(a)", r"x\1")]), (["ab"], [("(a)", r"x\1")]), (["ab"], [("b", "bb")]), (["x"], [("[ax]", "")]),
+    (["a"], [("a(b)", r"\1")]), (["b"], [("a(b)", r"\1")]), (["ab"], [("(a)(b)", r"\1\2")]), (["ab"], [("x(a)(b)", r"\1\2")]),
+    (["b"], [("(a)", r"\1\1"), ("(b)", r" \1")]), ([" "], [(" +", " "), ("(a) ", r"\1")]), (["a+"], [("(a)(a)?", r"\1-\2")]),
+    (["^a", "b$"], [("([ab])", r" \1 ")]), (["a b"], [(" ", ""), ("(a)", r"\1x")]), (["b"], [("b*", "-")]),
+]
+
+
+# long inputs (size-dependent fast paths, chunking): rules that keep the text within LEN_CAP
+LONG_RULES = [
+    [("(a)b", r"y\1")], [("x(a)", r"\1y")], [(" +", " ")], [("(a)(b)?(x)?", r"\1-\3")], [("wo(n't)", r"\1"), ("(a) ", r"\1")],
+    [("(a)b", r"y\1"), ("(y)a", r"-\1")], [("b", ""), ("(a)", r"x\1")], [("a(b)x", r"\1"), ("( )( )", r"\1")],
+]
+LONG_INPUTS = [("ab xa " * 30)[:n] for n in (31, 32, 33, 41, 63, 64, 65, 100, 127, 128, 129)] + \
+    ["I won't go " * 9, "a" * 70 + "b", " " * 50 + "ab" + " " * 50, "abx" * 40]
+
+
+# blanks that are NOT separators of the default pattern `[ \t]+` (only blank and tab are), line ends in every
+# style, characters outside the BMP, combining marks: offsets count code points and nothing else splits
+WS_INPUTS = ["ab\tab\nab\r\nab \x0bab\x0cab", "ab\x85ab\xa0ab\u2028ab\u3000ab\u2029 ab\x1cab", "\tab \t ab\t", "ab\n", "\r\nab ab\r\n",
+             "a\U0001F600b ab e\u0301ab \U00010000", "ab\x00ab ab", "\ufeffab ab"]
+
+
+def whitespace_cases():
+    rules = [{"pat": "(a)b", "tpl": r"y\1"}, {"pat": r"(\s)ya", "tpl": r"\1a"}]
+    for k, via in enumerate(("string", "file")):
+        # the first two inputs also go through the reuse battery (pattern None -> the default tokenizer)
+        yield G.make_case([{"k": "rule", "id": 0}] + ([{"k": "rule", "id": 1}] if k else []), rules[:k + 1], [],
+                          WS_INPUTS[k:] + WS_INPUTS[:k], tok=r"[ \t]+", via=via, kind="specimen")
+    yield G.make_case([{"k": "rule", "id": 0}], rules[:1], [], WS_INPUTS, tok=" ", via="string", kind="specimen")
+    # an empty `:` line: the pattern is the empty expression (every character a token), not the default
+    yield G.make_case([{"k": "rule", "id": 0}], rules[:1], [], ["ab ab", "", "a"], tok="", tokline=True, via="string",
+                      kind="specimen")
+    yield G.make_case([{"k": "mask", "id": 0}, {"k": "rule", "id": 0}], rules[:1], ["\\s"], WS_INPUTS, tok=r"[ \t]+",
+                      via="string", kind="masked")
+
+
+def long_input_cases(tier):
+    for k, seq in enumerate(LONG_RULES):
+        rules = [{"pat": p_, "tpl": t_} for p_, t_ in seq]
+        inputs = LONG_INPUTS if tier != "quick" else LONG_INPUTS[k % 3::3]
+        yield G.make_case([{"k": "rule", "id": i} for i in range(len(rules))], rules, [], inputs,
+                          tok=(r"[ \t]+" if k % 2 == 0 else " "), via=("string" if k % 2 else "file"), kind="specimen")
+    # the same under a mask
+    yield G.make_case([{"k": "mask", "id": 0}, {"k": "rule", "id": 0}, {"k": "rule", "id": 1}],
+                      [{"pat": "(a)b", "tpl": r"y\1"}, {"pat": " +", "tpl": " "}], ["xa"],
+                      LONG_INPUTS[::2], tok=r"[ \t]+", via="string", kind="masked")
+
+
+# YY boundary values: spans with 0 / -1 / start > end / beyond machine sizes, ids and vertices likewise, paths with
+# duplicates, non-ascending, many
+YY_LNKS = [[0, 0], [-1, -1], [-1, 0], [0, -1], [0, 1], [5, 2], [1, 1], [2 ** 31 - 1, 2 ** 31], [2 ** 32, 2 ** 63],
+           [-2 ** 31, -1], [-1, 2 ** 64 + 1], None]
+YY_PATHS = [[1, 1], [2, 1, 2], [3, 10, -2], [0], [-1], [2 ** 31, 2 ** 63, 2 ** 64 + 1], list(range(12, 0, -1)), [7] * 9]
+
+
+def yy_boundary_cases():
+    for k, lnk in enumerate(YY_LNKS):
+        big = [0, 1, -1, 2 ** 31, -2 ** 63 - 1, 2 ** 64][k % 6]
+        yield {"kind": "yy", "tokens": [
+            {"id": big, "start": k, "end": big, "lnk": lnk, "paths": YY_PATHS[k % len(YY_PATHS)], "form": cps("f%d" % k),
+             "surface": (cps("S") if k % 3 == 0 else None), "ipos": [0, -1, 2 ** 31][k % 3]},
+            {"id": 1, "start": 1, "end": 2, "lnk": YY_LNKS[(k + 5) % len(YY_LNKS)], "paths": YY_PATHS[(k + 3) % len(YY_PATHS)],
+             "form": cps('q"'), "surface": None, "ipos": 0}]}
+    # identical tokens, adjacent and not; backslash before a line end / a line separator
+    t0 = {"id": 1, "start": 0, "end": 1, "lnk": [0, 1], "paths": [1], "form": cps("a"), "surface": None, "ipos": 0}
+    t1 = dict(t0, form=cps("a\\\nb\\\u2028c\\\r"), surface=cps("\\\n"))
+    yield {"kind": "yy", "tokens": [dict(t0), dict(t0), dict(t1), dict(t0), dict(t1)]}
+    # a long lattice
+    yield {"kind": "yy", "tokens": [{"id": i, "start": i, "end": i + 1, "lnk": [3 * i, 3 * i + 2], "paths": [1],
+                                    "form": cps("w%d" % i), "surface": None, "ipos": 0} for i in range(70)]}
+
+
+def masked_specimen_cases(maxlen):
+    strings = list(G.all_strings(maxlen))
+    for k, (masks, seq) in enumerate(MASKED_SPECIMENS):
+        rules = [{"pat": p_, "tpl": t_} for p_, t_ in seq]
+        prog = [{"k": "mask", "id": i} for i in range(len(masks))] + [{"k": "rule", "id": i} for i in range(len(rules))]
+        if k % 3 == 2:
+            # a second look at the mask after the rules, and the rules once more
+            prog = prog + [{"k": "mask", "id": 0}] + [{"k": "rule", "id": i} for i in range(len(rules))]
+        yield G.make_case(prog, rules, list(masks), strings, tok=r"[ \t]+", via=("string" if k % 2 else "file"),
+                          kind="masked")
+
 
 NASTY = ['"', "\\", "a", " ", ")", "(", ",", "<1:2>", "\n", "\t", '\\"', "null", "é", "\\\\", "'", "0", "-1"]
 
@@ -113,6 +245,40 @@ def gen_yy_case(rng):
                      "form": cps(gen_text(rng)), "surface": None if rng.random() < 0.6 else cps(gen_text(rng)),
                      "ipos": rng.choice([0, 0, 1, -1, 12])})
     return {"kind": "yy", "tokens": toks}
+
+
+YYX_TAGS = ["NN", "VB", "$", "X-1", "n.n", "é", "(", ","]
+YYX_LRULES = [["null"], ["null", "x_rule"], ["3sg"], ["a", "b", "c"], ["null"], ["null"]]
+YYX_PROBS = [0.5, 0.0625, -0.25, 1.0, 0.0, 0.9999, 12.0001, -3.5, 1e-4, 0.3333]
+
+
+def gen_yyx_case(rng, k=None):
+    """extended tokens (several lrules, pos tags with 4-decimal probabilities) and the dict / list interface:
+    decided by the direct oracle only (no model)"""
+    toks = []
+    for i in range(rng.randrange(1, 4) if k is None else 1 + k % 3):
+        j = rng.randrange(1000) if k is None else k + i
+        lnk = None if j % 5 == 0 else ([-1, -1] if j % 7 == 0 else [j % 11, j % 13])
+        npos = [0, 1, 2, 4, 0][j % 5]
+        toks.append({"id": j % 4 - 1, "start": i, "end": i + 1, "lnk": lnk, "paths": [[1], [1, 2], [1], [2, 1, 2]][j % 4],
+                     "form": cps(gen_text(rng) or "w"), "surface": (cps(gen_text(rng)) if j % 3 == 0 else None),
+                     "ipos": j % 3, "lrules": YYX_LRULES[j % len(YYX_LRULES)],
+                     "pos": [[YYX_TAGS[(j + q) % len(YYX_TAGS)], YYX_PROBS[(j * 3 + q) % len(YYX_PROBS)]] for q in range(npos)]})
+    return {"kind": "yyx", "tokens": toks}
+
+
+def mk_xtoken(t):
+    lnk = None if t["lnk"] is None else Lnk.charspan(t["lnk"][0], t["lnk"][1])
+    return YYToken(t["id"], t["start"], t["end"], lnk, t["paths"], uncps(t["form"]),
+                   None if t["surface"] is None else uncps(t["surface"]), t["ipos"], list(t["lrules"]),
+                   [(a, b) for a, b in t["pos"]])
+
+
+def jxtok(t):
+    d = G.jytok(t)
+    d["lrules"] = list(t.lrules)
+    d["pos"] = [[a, b] for a, b in t.pos]
+    return d
 
 
 def mk_token(t):
@@ -139,6 +305,7 @@ def mutate(rng, s):
 class C14(G.C13):
     pid = "C14"
     driver = "Verif/C13/Driver.lean"
+    props_modules = ["Verif.C14.Props", "Verif.C14.PropsMasked", "Verif.C14.Translated", "Verif.C14.TranslatedParts"]
     quick_cases = 1100
     thorough_cases = 16000
     KEYS = ("string", "startmap", "endmap", "tokens", "yy", "reparsed")
@@ -151,18 +318,52 @@ class C14(G.C13):
             "patterns '[ \\t]+', ' ', ',', 'x*' (given as argument or as ':' line); 36 specimen rules on all strings "
             "over {a,b,x,' '} up to length 3 (quick) / 5 (thorough); direct YY lattices with quotes, backslashes, "
             "parentheses, commas, line feeds in form and surface, negative and multiple path/ids; mutated lattice "
-            "strings for the parser model. Non-trivial: some rule applied or a YY lattice with a token.")
+            "strings for the parser model, paths texts with glued integers (ValueError); programs with masks before / "
+            "between rewrite rules (14 specimens on all short strings, random ones; blocked matches) with the "
+            "subset-provenance oracle; long inputs (31..129 characters around 32/64/128) plain and under a mask; inputs "
+            "with tabs, line ends in every style, non-separator blanks, NUL, BOM, astral and combining characters; an "
+            "empty ':' pattern; YY boundary values (spans 0/-1/reversed/beyond 2^63, duplicate and non-ascending paths, "
+            "identical tokens, 70-token lattice); extended tokens (several lrules, pos tags) and the dict/list "
+            "interface (oracle only); REPP.from_config on a third of the programs (oracle only). Non-trivial: some "
+            "rule applied or a YY lattice with a token.")
     assumptions = G.C13.assumptions + [
         "provenance is claimed for characters outside all matches (every template) and inside participating groups "
         "of templates that reference groups 1..k in order; capture groups inside look-around (spans outside the "
         "match) are not generated",
         "the YY parser model covers tokens with lrules == ['null'] and no pos tags (what tokenize_result builds, with "
         "or without surface); other tokens are answered 'unmodelled' and not compared; blanks outside quoted strings "
-        "are ASCII",
+        "are ASCII; a ValueError of from_string (glued paths) and 'unmodelled' are one answer in the driver protocol",
+        "programs with masks: the provenance oracle takes, at every rule step, the subsets of matches (all matches free "
+        "of masked material plus any of the others, at most %d of those) whose substitution gives the step's output, "
+        "and claims a character only where all such subsets agree; which matches are blocked is decided by the "
+        "mask model of C13 (correspondence), not by this oracle" % MAX_DIRTY,
+        "tokens with pos tags / several lrules, YYToken.to_dict/from_dict, YYTokenLattice.to_list/from_list/__eq__ "
+        "and REPP.from_config are checked by the direct oracle only (no model)",
     ]
     trusted_base = ["hand-written models lean/Verif/C13/Model.lean and lean/Verif/C14/Model.lean "
                     "(+ Verif/Common/Codec.lean for integers, Lnk and quoted strings), tied to delphin.repp / "
-                    "delphin.tokens by the correspondence run", "CPython re as the reference engine"]
+                    "delphin.tokens by the correspondence run", "CPython re as the reference engine",
+                    "source translator py2lean + PyRt (TRANSLATOR.md)"]
+
+    def translation_specs(self):
+        from .common import py2lean as P
+        from delphin import repp
+        cmap = P.Lst(P.INT)
+        parts = P.Lst(P.STR)
+        return [P.Spec(repp._mergemap, "mergemap", [("map1", cmap), ("map2", cmap)], cmap, small_ints=True),
+                P.Spec(repp._zeromap, "zeromap", [("s", P.STR)], cmap),
+                # parts / smap / emap are mutated in place: the translated functions return their new values
+                P.Spec(repp._copy_part, "copy_part", [("s", P.STR), ("shift", P.INT), ("parts", parts), ("smap", cmap),
+                                                      ("emap", cmap)], P.NONE, small_ints=True),
+                P.Spec(repp._insert_part, "insert_part", [("s", P.STR), ("width", P.INT), ("shift", P.INT),
+                                                          ("parts", parts), ("smap", cmap), ("emap", cmap)], P.NONE,
+                       small_ints=True)]
+
+    def translations(self):
+        """Source translation (TRANSLATOR.md): repp._mergemap → lean/Verif/Generated/TransC14.lean, proved equal to the
+        model's mergeMap in lean/Verif/C14/Translated.lean."""
+        from .common import py2lean as P
+        return P.translate_module(self.translation_specs(), "Verif.Trans.C14")
 
     def tables(self):
         """Pins: constants of the anchored code that the hand-written models mirror (see c14_pins in Props.lean)"""
@@ -172,6 +373,23 @@ class C14(G.C13):
     def cases(self, rng, tier, n):
         for c in super().cases(rng, tier, n):
             yield c
+        # programs with masks before / between rewrite rules (blocked matches): bounded-exhaustive specimens, then random
+        yield from masked_specimen_cases(3 if tier == "quick" else 4)
+        yield from long_input_cases(tier)
+        yield from whitespace_cases()
+        yield from yy_boundary_cases()
+        for k in range(24):
+            yield gen_yyx_case(rng, k)
+        for _ in range(n // 20):
+            yield gen_yyx_case(rng)
+        k = 0
+        while k < n // 8:
+            c = G.gen_masked_case(rng)
+            if c["tok"] is None:
+                c["tok"] = rng.choice(G.TOKPATS)
+            if G.terminates(c):
+                k += 1
+                yield c
         # forms and surfaces starting / ending with a double quote or a backslash, alone and doubled
         edge = ['"', '\\', 'a"', '"a', 'a\\', '\\a', '""', '\\\\', '\\"', '"\\', '"a"', '\\a\\', ' "', '" ', '']
         for i in range(0, len(edge), 3):
@@ -180,6 +398,11 @@ class C14(G.C13):
                                             "ipos": 0} for j, f in enumerate(edge[i:i + 3])]}
         yield G.make_case([{"k": "rule", "id": 0}], [{"pat": "x", "tpl": "x"}], [],
                           ['" a" "a \\ a\\ \\a', '"" \\\\ \\" "\\', 'a" "'], tok=" ", via="string", kind="specimen")
+        # paths text with integers glued together / separated by other blanks: the regex accepts `1-0`, the code
+        # splits on blanks and int() raises ValueError (model: MT.valueError)
+        for paths in ["1-0", "3 10-2", "-1-2", "1 -0", "1\t2", "1  2", "1-", "1 - 2", "12", "1-0 2", "0-0-0", "1\n-2"]:
+            for tail in ['"null")', '"null" )', '"x")', '"null", "NN" 0.5)']:
+                yield {"kind": "yyparse", "s": cps('(1, 0, 1, <0:1>, %s, "a", 0, %s (2, 1, 2, 1, "b", 0, "null")' % (paths, tail))}
         for _ in range(n // 3):
             yield gen_yy_case(rng)
         for _ in range(n // 3):
@@ -201,14 +424,35 @@ class C14(G.C13):
             yield {"kind": "yyparse", "s": cps(mutate(rng, s) if s else "()")}
 
     def search_cases(self, rng, tier, n, seeds):
-        if any(c["kind"] in ("yy", "yyparse") for c in seeds):
+        if any(c["kind"] in ("yy", "yyparse", "yyx") for c in seeds):
             for _ in range(n):
                 yield gen_yy_case(rng)
         else:
             yield from super().search_cases(rng, tier, n, seeds)
 
     # ---- implementation
+    def impl_yyx(self, case):
+        toks = [mk_xtoken(t) for t in case["tokens"]]
+        lat = YYTokenLattice(toks)
+        s = str(lat)
+        back = YYTokenLattice.from_string(s)
+        lst = lat.to_list()
+        viaj = YYTokenLattice.from_list(json.loads(json.dumps(lst)))
+        try:
+            YYToken(0, 0, 1)
+            noform = "no error"
+        except TypeError:
+            noform = "TypeError"
+        dflt = YYToken(5, 6, 7, form="f")
+        return {"yy": cps(s), "reparsed": [jxtok(t) for t in back.tokens], "same": back == lat and lat == back,
+                "keys": [sorted(d) for d in lst], "fromlist": [jxtok(t) for t in viaj.tokens],
+                "list_same": YYTokenLattice.from_list(lst) == viaj,
+                "eq_other": [lat == 5, lat != 5, lat == YYTokenLattice(toks + toks[:1]), lat == YYTokenLattice(list(toks))],
+                "noform": noform, "defaults": jxtok(dflt), "default_lnk_falsy": not dflt.lnk}
+
     def impl(self, case):
+        if case["kind"] == "yyx":
+            return self.impl_yyx(case)
         if case["kind"] == "yy":
             lat = YYTokenLattice([mk_token(t) for t in case["tokens"]])
             s = str(lat)
@@ -228,8 +472,8 @@ class C14(G.C13):
                 back = YYTokenLattice.from_string(uncps(case["s"]))
             except ValueError:
                 # e.g. paths "1-0": the regex reads two integers, the code splits on blanks and int() fails;
-                # malformed input, outside the property and outside the parser model
-                return {"reparsed": {"err": "unmodelled"}}
+                # malformed input, outside the property; the model answers the same (MT.valueError -> no list)
+                return {"reparsed": {"err": "unmodelled"}, "why": "ValueError"}
             if any(t.lrules != ["null"] or t.pos for t in back.tokens):
                 return {"reparsed": {"err": "unmodelled"}}
             return {"reparsed": [G.jytok(t) for t in back.tokens]}
@@ -244,6 +488,8 @@ class C14(G.C13):
                 "runs": runs}
 
     def model_request(self, case):
+        if case["kind"] == "yyx":
+            return None
         if case["kind"] == "yy":
             return {"op": "yy", "tokens": case["tokens"]}
         if case["kind"] == "yyparse":
@@ -258,7 +504,8 @@ class C14(G.C13):
             m_un = isinstance(answer, dict) and isinstance(answer.get("reparsed"), dict)
             i_un = isinstance(expected.get("reparsed"), dict)
             if case["kind"] == "yyparse" and m_un and i_un:
-                self.note_skip("yyparse: token with lrules != ['null'] or pos tags (outside the YY parser model), both sides")
+                self.note_skip("yyparse: token with lrules != ['null'] or pos tags (outside the YY parser model) or "
+                               "ValueError on glued paths, both sides")
                 return None
             if m_un or i_un:
                 # one-sided: the model must say exactly when the real parser meets a token outside its shapes
@@ -276,6 +523,32 @@ class C14(G.C13):
             fails.append({"clause": clause, "detail": detail})
         if case["kind"] == "yyparse":
             return fails
+        if case["kind"] == "yyx":
+            want = [dict(t, pos=[list(x) for x in t["pos"]]) for t in case["tokens"]]
+            shape = all(t["paths"] and t["lnk"] != [-1, -1] for t in case["tokens"])
+            if shape and (res["reparsed"] != want or not res["same"]):
+                fail("the token lattice (tokens with several lrules / pos tags) does not survive YY serialization and parsing",
+                     repr((uncps(res["yy"]), want, res["reparsed"]))[:900])
+            # dict / list interface: id, vertices, span (when informative), form, surface and pos tags are kept;
+            # paths, ipos, lrules are not part of the dict and come back as the defaults
+            wl, wk = [], []
+            for t in case["tokens"]:
+                truthy = t["lnk"] is not None and t["lnk"] != [-1, -1]
+                wl.append(dict(t, lnk=(t["lnk"] if truthy else None), paths=[1], ipos=0, lrules=["null"],
+                               pos=[list(x) for x in t["pos"]]))
+                wk.append(sorted(["id", "start", "end", "form"] + (["from", "to"] if truthy else [])
+                                 + (["surface"] if t["surface"] is not None else [])
+                                 + (["tags", "probabilities"] if t["pos"] else [])))
+            if res["fromlist"] != wl or res["keys"] != wk or not res["list_same"]:
+                fail("YYTokenLattice.from_list(to_list()) does not keep id, vertices, span, form, surface and pos tags",
+                     repr((wl, res["fromlist"], res["keys"]))[:900])
+            if res["eq_other"] != [False, True, False, True]:
+                fail("YYTokenLattice.__eq__ is not equality of the token lists", repr(res["eq_other"]))
+            if res["noform"] != "TypeError" or not res["default_lnk_falsy"] or \
+                    {k: res["defaults"][k] for k in ("lnk", "paths", "surface", "ipos", "lrules", "pos")} != \
+                    {"lnk": None, "paths": [1], "surface": None, "ipos": 0, "lrules": ["null"], "pos": []}:
+                fail("YYToken() defaults / missing form", repr((res["noform"], res["defaults"])))
+            return fails
         if case["kind"] == "yy":
             ok_shape = all(t["paths"] and t["lnk"] != [-1, -1] for t in case["tokens"])
             want = [dict(t) for t in case["tokens"]]
@@ -289,6 +562,7 @@ class C14(G.C13):
         obs = self.full(case)
         if "err" in obs:
             return fails          # load errors are C13's business
+        masked = case["kind"] == "masked"
         ngroups = {i: (ld or {}).get("ngroups") for i, ld in enumerate(obs["load"])}
         for ent in obs["eng"]:
             why = G.check_matches(uncps(ent["s"]), ent["ms"], ngroups[ent["id"]])
@@ -297,79 +571,191 @@ class C14(G.C13):
         for inp, run in zip(case["inputs"], obs["runs"]):
             s = uncps(inp)
             n = len(s)
-            try:
-                want, org = ref_prov(case, case["prog"], s, list(range(n)))
-            except G.Diverges:
-                continue
-            if "err" in run:
-                fail("apply raises or does not terminate although the reference reaches a result", repr((s, run["err"])))
-                continue
-            out = uncps(run["string"])
-            sm, em = run["startmap"], run["endmap"]
-            if len(sm) != len(out) + 2 or len(em) != len(out) + 2:
-                fail("offset maps do not have one entry per output position plus two sentinels",
-                     repr((s, out, len(sm), len(em))))
-                continue
-            if out != want:
-                fail("result string differs from the ordered substitutions (see C13)", repr((s, out, want)))
-                continue
-            for j in range(len(out)):
-                a, b = j + sm[j + 1], j + 1 + em[j + 1]
-                if not (0 <= a <= n and 0 <= b <= n):
-                    fail("a reported span does not lie within the original string", repr((s, out, j, a, b)))
-                    break
-            for j, p in enumerate(org):
-                if p is None:
+            if masked:
+                if "err" in run:
+                    if run["err"] != "timeout":
+                        fail("apply raises on a program with masks", repr((s, run["err"])))
                     continue
-                if s[p] != out[j]:
-                    fail("oracle inconsistency: carried character differs", repr((s, out, j, p)))
-                    break
-                if j + sm[j + 1] != p or j + 1 + em[j + 1] != p + 1:
-                    fail("a carried-over character is not attributed to its original position",
-                         repr({"input": s, "output": out, "j": j, "origin": p, "start": j + sm[j + 1],
-                               "end": j + 1 + em[j + 1]}))
-                    break
-            if not any(st["applied"] for st in run["steps"] if st["kind"] == "rule"):
-                a0, b0 = G.INIT(n)
-                if sm != a0 or em != b0:
-                    fail("no rule applied, but the maps are not the identity", repr((s, sm, em)))
-            if "tokens" in run:
-                pat = case["tok"]
-                if case.get("tokline") and obs.get("tokpat") != pat:
-                    fail("tokenization pattern of the module not taken from its ':' line", repr((obs.get("tokpat"), pat)))
-                pcs = pieces(pat, out)
-                toks = run["tokens"]
-                if [uncps(t[2]) for t in toks] != [out[a:b] for a, b in pcs]:
-                    fail("tokens are not the maximal separator-free pieces of the output in order",
-                         repr((out, pat, [uncps(t[2]) for t in toks], [out[a:b] for a, b in pcs])))
-                else:
-                    if not run["tokshape"]:
-                        fail("token ids / vertices are not consecutive", repr((s, out)))
-                    for (a, b), t in zip(pcs, toks):
-                        if not (0 <= t[0] <= n and 0 <= t[1] <= n):
-                            fail("a token span does not lie within the original string", repr((s, out, t)))
-                            break
-                        if t[0] != a + sm[a + 1] or t[1] != b + em[b]:
-                            fail("token span is not read from the maps at the token boundaries", repr((s, out, t, a, b)))
-                            break
-                        o = org[a:b]
-                        if all(p is not None for p in o) and all(o[i] + 1 == o[i + 1] for i in range(len(o) - 1)):
-                            if (t[0], t[1]) != (o[0], o[0] + (b - a)) or s[t[0]:t[1]] != out[a:b]:
-                                fail("original[from:to] != form for a token of contiguous carried-over characters",
-                                     repr({"input": s, "output": out, "token": [t[0], t[1], out[a:b]],
-                                           "expected_span": [o[0], o[0] + b - a]}))
-                                break
-                if not run["yysame"]:
-                    fail("the token lattice does not survive YY serialization and parsing", repr((s, uncps(run["yy"]))))
+                mp = masked_prov(case, s, run)
+                want, org = (None, None) if mp is None else (uncps(run["string"]), mp[0])
+            else:
+                try:
+                    want, org = ref_prov(case, case["prog"], s, list(range(n)))
+                except G.Diverges:
+                    continue
+                if "err" in run:
+                    fail("apply raises or does not terminate although the reference reaches a result", repr((s, run["err"])))
+                    continue
+            self.check_run(fail, case, obs, s, run, want, org)
         fails.extend(obs.get("purity", []))
-        if case["masks"]:
+        if case["kind"] in ("specimen", "masked") or len(json.dumps(case["prog"])) % 3 == 0:
+            if not G.has_kind(case["prog"], "incl") or case["via"] == "file":
+                self.check_config(fail, case, obs)
+        if not masked:
+            self.check_tokenize_active(fail, case, obs)
+        if case["masks"] and not masked:
             nomask = G.map_nodes(case["prog"], lambda nd: [] if nd["k"] == "mask" else None)
             v = self.variant(case, nomask)
             if G.strip_obs(v) != G.strip_obs(obs):
                 fail("a mask rule by itself changed the string or a reported span", repr(case["masks"]))
         return fails
 
+    def check_config(self, fail, case, obs):
+        """call path REPP.from_config (PET-style .set file naming the top module and the default activations):
+        the object it builds must give the results and tokens of the file-loaded program"""
+        import os
+        import tempfile
+        from delphin.repp import REPP
+        from pathlib import Path
+        active = sorted(G.active_names(case["prog"]))
+        pairs = [(uncps(i), run) for i, run in zip(case["inputs"], obs["runs"]) if "err" not in run][:3]
+        if not pairs:
+            return
+        c2 = dict(case, via="file")
+        ctx = {}
+        with warnings.catch_warnings():
+            warnings.simplefilter("ignore")
+            G.build(c2, self.tmp, None, ctx)
+            d = ctx["dir"]
+            conf = "; REPP configuration\nrepp-modules := main%s.\nrepp-tokenizer := main. ; top module\n" % \
+                "".join(" " + a for a in active)
+            if active:
+                conf += "repp-calls := %s.\n" % " ".join(active)
+            with open(os.path.join(d, "repp.set"), "w", encoding="utf-8") as f:
+                f.write(conf)
+            sub = tempfile.mkdtemp(dir=d)
+            with open(os.path.join(sub, "pet.set"), "w", encoding="utf-8") as f:
+                f.write(conf)
+            objs = [("beside the modules", REPP.from_config(os.path.join(d, "repp.set"))),
+                    ("directory=Path", REPP.from_config(os.path.join(sub, "pet.set"), directory=Path(d)))]
+            for label, rc in objs:
+                for s, run in pairs:
+                    x = rc.apply(s)
+                    if (x.string, list(x.startmap), list(x.endmap)) != (uncps(run["string"]), run["startmap"], run["endmap"]):
+                        fail("from_config: apply on the configured object differs from the file-loaded program",
+                             repr((label, s, x.string, list(x.startmap), list(x.endmap))))
+                        return
+                    if "tokens" in run:
+                        lat = rc.tokenize(s) if case.get("tokline") else rc.tokenize(s, pattern=case["tok"])
+                        if [[t.lnk.data[0], t.lnk.data[1], cps(t.form)] for t in lat.tokens] != run["tokens"] or \
+                                cps(str(lat)) != run["yy"]:
+                            fail("from_config: tokenize on the configured object differs from the file-loaded program",
+                                 repr((label, s, str(lat))))
+                            return
+        self._nconfig = getattr(self, "_nconfig", 0) + 1
+
+    def check_tokenize_active(self, fail, case, obs):
+        """`active` must reach the rewriting inside tokenize() on every call: ONE object, tokenize with the case's
+        active set, with none, with all external modules, and again — each time the tokens are the pieces of what
+        apply() gives for exactly that set (a result remembered from a call with another set shows here)"""
+        names = sorted(G.all_ext_names(case["prog"]))
+        if not names or case.get("tok") is None:
+            return
+        inputs = [uncps(i) for i, run in zip(case["inputs"], obs["runs"]) if "err" not in run][:2]
+        sets = []
+        for cand in (sorted(G.active_names(case["prog"])), [], names):
+            if cand in sets:
+                continue
+            prog2 = G.map_nodes(case["prog"], lambda nd, cand=cand: [dict(nd, active=(nd["name"] in cand))]
+                                if nd["k"] == "ext" and nd["active"] != (nd["name"] in cand) else None)
+            try:
+                for s in inputs:
+                    G.ref_run(dict(case, prog=prog2), prog2, s, [])
+                sets.append(cand)
+            except G.Diverges:
+                pass
+        if len(sets) < 2:
+            return
+        with warnings.catch_warnings():
+            warnings.simplefilter("ignore")
+            r = G.build(case, self.tmp)
+            pat = None if case.get("tokline") else case["tok"]
+            # same string with one set after the other (a one-entry memo keyed by the string shows), then all again
+            for s, act in [(s, a) for s in inputs for a in sets] + [(s, a) for a in sets[:2] for s in inputs]:
+                if True:
+                    lat = r.tokenize(s, pattern=pat, active=list(act))
+                    x = r.apply(s, active=list(act))
+                    want = [(a + x.startmap[a + 1], b + x.endmap[b], x.string[a:b]) for a, b in pieces(case["tok"], x.string)]
+                    if [(t.lnk.data[0], t.lnk.data[1], t.form) for t in lat.tokens] != want:
+                        fail("tokenize(s, active=A) is not the tokenization of apply(s, active=A) for the set given to THIS call",
+                             repr((s, act, [(t.lnk.data[0], t.lnk.data[1], t.form) for t in lat.tokens], want))[:700])
+                        return
+        self._nactive = getattr(self, "_nactive", 0) + 1
+
+    def check_run(self, fail, case, obs, s, run, want, org):
+        """the clauses of C14 on one run; `org[j]` = index in the original of output character j if it was
+        carried over (None otherwise); `org is None`: no provenance available (masked run outside the oracle)"""
+        n = len(s)
+        out = uncps(run["string"])
+        sm, em = run["startmap"], run["endmap"]
+        if len(sm) != len(out) + 2 or len(em) != len(out) + 2:
+            fail("offset maps do not have one entry per output position plus two sentinels",
+                 repr((s, out, len(sm), len(em))))
+            return
+        if want is not None and out != want:
+            fail("result string differs from the ordered substitutions (see C13)", repr((s, out, want)))
+            return
+        for j in range(len(out)):
+            a, b = j + sm[j + 1], j + 1 + em[j + 1]
+            if not (0 <= a <= n and 0 <= b <= n):
+                fail("a reported span does not lie within the original string", repr((s, out, j, a, b)))
+                break
+        for j, p in enumerate(org or []):
+            if p is None:
+                continue
+            if s[p] != out[j]:
+                fail("oracle inconsistency: carried character differs", repr((s, out, j, p)))
+                break
+            if j + sm[j + 1] != p or j + 1 + em[j + 1] != p + 1:
+                fail("a carried-over character is not attributed to its original position",
+                     repr({"input": s, "output": out, "j": j, "origin": p, "start": j + sm[j + 1],
+                           "end": j + 1 + em[j + 1]}))
+                break
+        if not any(st["applied"] for st in run["steps"] if st["kind"] == "rule"):
+            a0, b0 = G.INIT(n)
+            if sm != a0 or em != b0:
+                fail("no rule applied, but the maps are not the identity", repr((s, sm, em)))
+        if "tokens" in run:
+            pat = case["tok"]
+            if case.get("tokline") and obs.get("tokpat") != pat:
+                fail("tokenization pattern of the module not taken from its ':' line", repr((obs.get("tokpat"), pat)))
+            pcs = pieces(pat, out)
+            toks = run["tokens"]
+            if [uncps(t[2]) for t in toks] != [out[a:b] for a, b in pcs]:
+                fail("tokens are not the maximal separator-free pieces of the output in order",
+                     repr((out, pat, [uncps(t[2]) for t in toks], [out[a:b] for a, b in pcs])))
+            else:
+                if not run["tokshape"]:
+                    fail("token ids / vertices are not consecutive", repr((s, out)))
+                for (a, b), t in zip(pcs, toks):
+                    if not (0 <= t[0] <= n and 0 <= t[1] <= n):
+                        fail("a token span does not lie within the original string", repr((s, out, t)))
+                        break
+                    if t[0] != a + sm[a + 1] or t[1] != b + em[b]:
+                        fail("token span is not read from the maps at the token boundaries", repr((s, out, t, a, b)))
+                        break
+                    o = None if org is None else org[a:b]
+                    if o is not None and all(p is not None for p in o) and all(o[i] + 1 == o[i + 1] for i in range(len(o) - 1)):
+                        if (t[0], t[1]) != (o[0], o[0] + (b - a)) or s[t[0]:t[1]] != out[a:b]:
+                            fail("original[from:to] != form for a token of contiguous carried-over characters",
+                                 repr({"input": s, "output": out, "token": [t[0], t[1], out[a:b]],
+                                       "expected_span": [o[0], o[0] + b - a]}))
+                            break
+            if not run["yysame"]:
+                fail("the token lattice does not survive YY serialization and parsing", repr((s, uncps(run["yy"]))))
+
+    def extra_evidence(self):
+        ev = super().extra_evidence()
+        ev["from_config_checked"] = getattr(self, "_nconfig", 0)
+        ev["tokenize_active_interleaved"] = getattr(self, "_nactive", 0)
+        return ev
+
     def stats(self, case, res, counters):
+        if case["kind"] == "yyx":
+            counters["kind:yyx"] = counters.get("kind:yyx", 0) + 1
+            counters["yyx:tokens"] = counters.get("yyx:tokens", 0) + len(case["tokens"])
+            counters["yyx:pos_tags"] = counters.get("yyx:pos_tags", 0) + sum(len(t["pos"]) for t in case["tokens"])
+            return
         if case["kind"] in ("yy", "yyparse"):
             counters["kind:" + case["kind"]] = counters.get("kind:" + case["kind"], 0) + 1
             if case["kind"] == "yy":
@@ -381,6 +767,9 @@ class C14(G.C13):
             elif isinstance(res, dict) and isinstance(res.get("reparsed"), list):
                 k = "yyparse:tokens=%d" % min(len(res["reparsed"]), 3)
                 counters[k] = counters.get(k, 0) + 1
+            elif isinstance(res, dict):
+                k = "yyparse:" + res.get("why", "outside_model")
+                counters[k] = counters.get(k, 0) + 1
             return
         super().stats(case, res, counters)
         obs = self.full(case)
@@ -389,10 +778,24 @@ class C14(G.C13):
         for inp, run in zip(case["inputs"], obs["runs"]):
             if "err" in run:
                 continue
-            try:
-                _, org = ref_prov(case, case["prog"], uncps(inp), list(range(len(inp))))
-            except G.Diverges:
-                continue
+            if case["kind"] == "masked":
+                mp = masked_prov(case, uncps(inp), run)
+                if mp is None:
+                    counters["masked:runs_without_provenance"] = counters.get("masked:runs_without_provenance", 0) + 1
+                    continue
+                org = mp[0]
+                counters["masked:runs_with_provenance"] = counters.get("masked:runs_with_provenance", 0) + 1
+                counters["masked:rule_steps_some_match_left_alone"] = \
+                    counters.get("masked:rule_steps_some_match_left_alone", 0) + mp[1]
+                counters["masked:out_chars:carried"] = counters.get("masked:out_chars:carried", 0) + \
+                    sum(1 for p_ in org if p_ is not None)
+                counters["masked:out_chars:carried_moved"] = counters.get("masked:out_chars:carried_moved", 0) + \
+                    sum(1 for j, p_ in enumerate(org) if p_ is not None and p_ != j)
+            else:
+                try:
+                    _, org = ref_prov(case, case["prog"], uncps(inp), list(range(len(inp))))
+                except G.Diverges:
+                    continue
             counters["out_chars"] = counters.get("out_chars", 0) + len(org)
             counters["out_chars:carried"] = counters.get("out_chars:carried", 0) + sum(1 for p in org if p is not None)
             counters["out_chars:carried_moved"] = counters.get("out_chars:carried_moved", 0) + \
@@ -401,6 +804,8 @@ class C14(G.C13):
                 counters["tokens"] = counters.get("tokens", 0) + len(run["tokens"])
 
     def nontrivial_key(self, case, res):
+        if case["kind"] == "yyx":
+            return json.dumps(case, sort_keys=True)
         if case["kind"] == "yy":
             return json.dumps(case, sort_keys=True) if case["tokens"] else None
         if case["kind"] == "yyparse":
@@ -408,8 +813,8 @@ class C14(G.C13):
         return super().nontrivial_key(case, res)
 
     def shrink(self, case, still_fails):
-        if case["kind"] in ("yy", "yyparse"):
-            if case["kind"] == "yy":
+        if case["kind"] in ("yy", "yyparse", "yyx"):
+            if case["kind"] in ("yy", "yyx"):
                 for t in list(case["tokens"]):
                     c = dict(case, tokens=[x for x in case["tokens"] if x is not t])
                     if still_fails(c):
